@@ -69,7 +69,19 @@ def check_point(case):
     out.label(name)
     so = sys.stdout
     sys.stdout = io.StringIO()
+    corr = case.get("corr") or {}
+    Dtr0 = None
     try:
+        if corr and th.mobCallables.get(ph) is not None:
+            # documented option: "factor to multiply mobility by for each element" - the uncorrected tracer diffusivities first
+            th.setMobilityCorrection("all", 1)
+            try:
+                Dtr0 = np.array(th.getTracerDiffusivity(x if len(x) > 1 else x[0], T, removeCache=True, phase=ph), dtype=float)
+            except Exception:
+                Dtr0 = None
+            for e, f in corr.items():
+                th.setMobilityCorrection("all" if e == "all" else els[int(e)], f)
+            out.label("mobility_correction")
         try:
             md = computeMobility(th, x if len(x) > 1 else x[0], T)
             names = [str(p) for p in md.phases[0]]
@@ -125,6 +137,15 @@ def check_point(case):
         th.clearCache()
         if np.any(~np.isfinite(Dtr)) or np.any(Dtr <= 0):
             out.fail("tracer_not_positive", "%s x=%r T=%r: tracer diffusivities %r" % (name, x.tolist(), T, Dtr.tolist()))
+        if Dtr0 is not None:
+            fac = np.ones(len(els))
+            for e, f in corr.items():         # applied in this order by the harness: a later entry overrides an earlier 'all'
+                if e == "all":
+                    fac[:] = f
+                else:
+                    fac[int(e)] = f
+            if not np.allclose(Dtr, Dtr0 * fac, rtol=1e-5, atol=0):
+                out.fail("mobility_correction_not_applied", "%s x=%r T=%r: tracer diffusivities %r with correction factors %r, %r without" % (name, x.tolist(), T, Dtr.tolist(), fac.tolist(), Dtr0.tolist()))
         if th.mobCallables.get(ph) is not None:
             out.label("mobility_model")
             xfull = np.concatenate([[1 - x.sum()], x])
@@ -141,6 +162,9 @@ def check_point(case):
                 if not np.isclose(D[0, 0], darken, rtol=5e-4, atol=0):
                     out.fail("darken_relation", "%s x=%r T=%r: interdiffusivity %r, Darken combination of tracer diffusivities and finite-difference curvature %r" % (name, x.tolist(), T, D[0, 0], darken))
     finally:
+        if corr:
+            th.setMobilityCorrection("all", 1)
+            th.clearCache()
         sys.stdout = so
     out.nt(bool(np.all(x >= 1e-3)))
     return out
@@ -156,7 +180,18 @@ def _pt(draw):
             x.append(10 ** draw(st.floats(np.log10(lo), np.log10(hi))))
         else:
             x.append(draw(st.floats(lo, hi)))
-    return {"system": name, "x": x, "T": draw(st.floats(*Tr))}
+    case = {"system": name, "x": x, "T": draw(st.floats(*Tr))}
+    if draw(st.integers(0, 3)) == 3:
+        # mobility correction factors (setMobilityCorrection): for all elements and/or single ones
+        corr = {}
+        if draw(st.booleans()):
+            corr["all"] = 10 ** draw(st.floats(-1, 1))
+        for i in range(len(els)):
+            if draw(st.integers(0, 2)) == 0:
+                corr[str(i)] = 10 ** draw(st.floats(-1, 1))
+        if corr:
+            case["corr"] = corr
+    return case
 
 
 def clauses():
